@@ -23,24 +23,28 @@ const (
 	// deliberately permutes the stream; the reference is the deque: every put-back goes to the very front)
 	opReqOld = nOps
 	seqOps   = nOps + 1
+	// second enumeration only (base 7): enqueue an EMPTY chunk (non-nil, zero length), as the channel's
+	// read loop does for a transport read made only of carriage returns / escape sequences
+	opEnqEmpty = seqOps
+	seqOpsE    = seqOps + 1
 )
 
-var opNames = [seqOps]string{"Enqueue", "Dequeue", "DequeueAll", "Requeue", "GetDepth", "RequeueOldestHeld"}
+var opNames = [seqOpsE]string{"Enqueue", "Dequeue", "DequeueAll", "Requeue", "GetDepth", "RequeueOldestHeld", "EnqueueEmpty"}
 
-// decodeHist returns the idx-th history of length L (base-6 digits, most significant first).
-func decodeHist(L int, idx int64) []int {
+// decodeHist returns the idx-th history of length L (base-`base` digits, most significant first).
+func decodeHist(L int, idx int64, base int) []int {
 	ops := make([]int, L)
 	for i := L - 1; i >= 0; i-- {
-		ops[i] = int(idx % seqOps)
-		idx /= seqOps
+		ops[i] = int(idx % int64(base))
+		idx /= int64(base)
 	}
 	return ops
 }
 
-func powOps(L int) int64 {
+func powOps(L int, base int) int64 {
 	n := int64(1)
 	for i := 0; i < L; i++ {
-		n *= seqOps
+		n *= int64(base)
 	}
 	return n
 }
@@ -52,6 +56,8 @@ type seqShape struct {
 	twoThenAll bool // ... and a DequeueAll of the history itself took them
 	twoThenDeq bool // ... and a Dequeue of the history itself took one of them
 	twoAtEnd   bool // >= 2 put-backs outstanding when the history ends: the final probe's DequeueAll takes them
+	empties    bool // an empty chunk is enqueued
+	emptyHead  bool // a Dequeue of the history meets an empty chunk at the head with something behind it
 }
 
 // seqValid applies the property's quantifier: Requeue is only called by the consumer with a chunk
@@ -59,15 +65,23 @@ type seqShape struct {
 // several taken chunks and put them back one after the other, so several put-backs can be
 // outstanding at the same time. Decided on the reference alone.
 func seqValid(ops []int) seqShape {
-	depth, held, nPut := 0, 0, 0
+	// reference on shapes: queue = list of flags (true = empty chunk), held = taken elements
+	var queue []bool
+	held, nPut := 0, 0
 	var sh seqShape
 	for _, o := range ops {
 		switch o {
 		case opEnq:
-			depth++
+			queue = append(queue, false)
+		case opEnqEmpty:
+			queue = append(queue, true)
+			sh.empties = true
 		case opDeq:
-			if depth > 0 {
-				depth--
+			if len(queue) > 0 {
+				if queue[0] && len(queue) > 1 {
+					sh.emptyHead = true
+				}
+				queue = queue[1:]
 				held++
 				if nPut >= 2 {
 					sh.twoThenDeq = true
@@ -77,19 +91,20 @@ func seqValid(ops []int) seqShape {
 				}
 			}
 		case opAll:
-			if depth > 0 {
+			if len(queue) > 0 {
 				held++
 				if nPut >= 2 {
 					sh.twoThenAll = true
 				}
 			}
-			depth, nPut = 0, 0
+			queue, nPut = nil, 0
 		case opReq, opReqOld:
 			if held == 0 || (o == opReqOld && held < 2) {
 				return sh
 			}
 			held--
-			depth++
+			// emptiness of what is put back does not matter for the shape counters
+			queue = append([]bool{false}, queue...)
 			nPut++
 			if nPut >= 2 {
 				sh.twoOut = true
@@ -120,7 +135,7 @@ func runSeqHistory(ops []int, p *party) *finding {
 		d     int
 		final bool
 	}
-	var recs [24]srec
+	var recs [40]srec
 	nrec := 0
 	nEnq := 0
 	fail := func(key, f string, a ...interface{}) *finding {
@@ -131,8 +146,10 @@ func runSeqHistory(ops []int, p *party) *finding {
 				tag = "(final) "
 			}
 			switch x.op {
-			case opEnq, opReq, opReqOld:
+			case opEnq, opReq, opReqOld, opEnqEmpty:
 				log = append(log, fmt.Sprintf("%s%s(%q)", tag, opNames[x.op], x.b))
+			case -1:
+				log = append(log, fmt.Sprintf("    [GetDepth() = %d]", x.d))
 			case opDepth:
 				log = append(log, fmt.Sprintf("%sGetDepth() = %d", tag, x.d))
 			default:
@@ -156,6 +173,11 @@ func runSeqHistory(ops []int, p *party) *finding {
 			q.Enqueue(c)
 			ref = append(ref, c)
 			note(o, c, 0, final)
+		case opEnqEmpty:
+			c := []byte{}
+			q.Enqueue(c)
+			ref = append(ref, c)
+			note(o, c, 0, final)
 		case opDeq:
 			b := q.Dequeue()
 			note(o, b, 0, final)
@@ -169,6 +191,9 @@ func runSeqHistory(ops []int, p *party) *finding {
 				return fail("c20/seq:dequeue-nil-on-nonempty", "Dequeue() returned nil, the reference holds %d element(s), first %q", len(ref), ref[0])
 			}
 			if !bytes.Equal(b, ref[0]) {
+				if len(ref[0]) == 0 {
+					return fail("c20/seq:dequeue-wrong-chunk", "Dequeue() returned %q, but the element at the head is an empty chunk: Dequeue takes exactly one element and must return it (empty)", b)
+				}
 				return fail("c20/seq:dequeue-wrong-chunk", "Dequeue() returned %q, expected %q", b, ref[0])
 			}
 			ref = ref[1:]
@@ -183,6 +208,11 @@ func runSeqHistory(ops []int, p *party) *finding {
 				return nil
 			}
 			want := bytes.Join(ref, nil)
+			if b == nil && len(want) == 0 {
+				// only empty chunks were held: nothing to return, nil or empty are both "nothing"
+				// (bytes.Join of one empty chunk is nil); the elements are taken all the same
+				b = []byte{}
+			}
 			if b == nil {
 				return fail("c20/seq:dequeueall-nil-on-nonempty", "DequeueAll() returned nil, expected %q", want)
 			}
@@ -215,8 +245,23 @@ func runSeqHistory(ops []int, p *party) *finding {
 		}
 		return nil
 	}
+	// depth against content after every step
+	depthNow := func() *finding {
+		d := q.GetDepth()
+		if nrec < len(recs) {
+			recs[nrec] = srec{-1, nil, d, false}
+			nrec++
+		}
+		if d != len(ref) {
+			return fail("c20/seq:depth-mismatch", "after this step GetDepth() = %d, the reference holds %d element(s)", d, len(ref))
+		}
+		return nil
+	}
 	for _, o := range ops {
 		if f := step(o, false); f != nil {
+			return f
+		}
+		if f := depthNow(); f != nil {
 			return f
 		}
 	}
@@ -243,14 +288,23 @@ func runSeq(d Desc) mon.Result {
 	cur.Store(-1)
 	var found *finding
 	obs := map[string]int64{}
+	base := seqOps
+	if d.Ops == seqOpsE {
+		base = seqOpsE
+	}
 	done := make(chan struct{})
 	go func() {
 		defer close(done)
 		p.enter()
 		defer p.leave(nil)
 		for idx := d.Lo; idx < d.Hi; idx++ {
-			ops := decodeHist(d.Len, idx)
+			ops := decodeHist(d.Len, idx, base)
 			sh := seqValid(ops)
+			if base == seqOpsE && sh.valid && !sh.empties {
+				// covered by the base-6 enumeration
+				obs["seq_skipped_covered_by_base6"]++
+				continue
+			}
 			if !sh.valid {
 				obs["seq_skipped_precondition"]++
 				continue
@@ -263,6 +317,12 @@ func runSeq(d Desc) mon.Result {
 			}
 			if sh.twoThenDeq {
 				obs["seq_histories_two_putbacks_then_dequeue"]++
+			}
+			if sh.empties {
+				obs["seq_histories_with_empty_chunks"]++
+			}
+			if sh.emptyHead {
+				obs["seq_histories_dequeue_meets_empty_chunk_at_head_with_more_behind"]++
 			}
 			if sh.twoAtEnd {
 				obs["seq_histories_two_putbacks_then_final_dequeueall"]++
@@ -277,10 +337,10 @@ func runSeq(d Desc) mon.Result {
 		}
 	}()
 	out := watch([]*party{&p}, done, 120*time.Second)
-	tags := []string{"kind=seq", fmt.Sprintf("seq/len=%d", d.Len)}
+	tags := []string{"kind=seq", fmt.Sprintf("seq/base%d/len=%d", base, d.Len)}
 	hist := func() string {
 		if i := cur.Load(); i >= 0 {
-			return histString(decodeHist(d.Len, i))
+			return histString(decodeHist(d.Len, i, base))
 		}
 		return "?"
 	}
